@@ -211,7 +211,7 @@ Theorem C05_relay_requests_carry_spec_signature :
       M5.e_proposal e = M5.POk pr /\ M5.p_blinded pr = true /\ M5.p_block pr = Some h /\ M5.h_slot h = M5.d_slot d
       /\ M5.signed_container (M5.p_version pr) true = Some code
       /\ let signed := L5.signed_proposal pr h (sign (a_key acc) (spec_signing_root H ch (MBlock (header_signed d h)))) code in
-         (rq = M5.unblind_request signed \/ rq = M5.late_request signed)
+         rq = M5.unblind_request signed
       /\ a_fail acc = false.
 Proof. exact relay_requests_signature. Qed.
 Print Assumptions C05_relay_requests_carry_spec_signature.
